@@ -60,8 +60,27 @@ impl MinV {
         }
     }
 
-    pub fn keys(&self) -> Vec<String> {
-        self.map.keys().cloned().collect()
+    /// (key, replay JSON) of the minimal case of every key, for the confirmation re-run.
+    pub fn minimal_cases(&self) -> Vec<(String, Value)> {
+        self.map.iter().map(|(k, e)| (k.clone(), e.replay.clone())).collect()
+    }
+
+    /// Re-execute the minimal case of every key twice with `rerun` (which returns the keys that
+    /// fire); a key that does not fire again is uncaptured nondeterminism: a machinery error,
+    /// never a verdict.
+    pub fn confirm(&self, rep: &mut Report, mut rerun: impl FnMut(&Value) -> Vec<String>) {
+        let mut confirmed = 0u64;
+        for (key, replay) in self.minimal_cases() {
+            for round in 0..2 {
+                let keys = rerun(&replay);
+                if !keys.contains(&key) {
+                    rep.machinery_error(format!("violation {key} did not reproduce on confirmation run {round} (got {keys:?})"));
+                } else {
+                    confirmed += 1;
+                }
+            }
+        }
+        rep.set("violations_confirmed_by_rerun", json!(confirmed));
     }
 
     pub fn flush(self, rep: &mut Report) {
